@@ -5,8 +5,10 @@ import re
 from . import wholetool as wt
 
 
-def check_markers(moddir, flags=None):
-    """-> (number of marked lines, list of failures)"""
+def check_markers(moddir, flags=None, known=None):
+    """-> (number of marked lines, list of failures).  Lines marked //KNOWN:<id> are dereferences a nil value reaches
+    that the tool is known not to report (a listed finding): when `known` is a list, (id, place) of those still
+    unreported is appended to it; one that is reported now is not a failure"""
     r, err = wt.analyze(moddir, flags=flags)
     if r is None:
         return 0, ["run failed: %s" % err]
@@ -22,6 +24,12 @@ def check_markers(moddir, flags=None):
             for dg in r["diags"] or []:
                 touched |= wt.lines_mentioned(dg, rel)
             for i, line in enumerate(open(os.path.join(root, f)).read().splitlines(), 1):
+                mk = re.search(r"//KNOWN:([\w-]+)", line)
+                if mk:
+                    n += 1
+                    if known is not None and i not in touched:
+                        known.append((mk.group(1), "%s:%d" % (rel, i)))
+                    continue
                 m = re.search(r"//(REPORT|SILENT)\b", line)
                 if not m:
                     continue
